@@ -105,6 +105,8 @@ pub struct Usage {
 	pub largest: usize,
 	pub total: usize,
 	pub calls: usize,
+	/// bytes allocated inside the measured region that are still live when it ends
+	pub live_end: isize,
 }
 
 /// Measure the allocations of `f` on this thread.
@@ -122,6 +124,7 @@ pub fn measure<R>(f: impl FnOnce() -> R) -> (R, Usage) {
 		largest: LARGEST.with(|x| x.get()),
 		total: TOTAL.with(|x| x.get()),
 		calls: CALLS.with(|x| x.get()),
+		live_end: LIVE.with(|x| x.get()),
 	};
 	(r, u)
 }
